@@ -1096,6 +1096,34 @@ def run_moved_from_functions(chk, F):
                        'matrix throws std::bad_function_call when it next compares two bars' % mname,
                        key='E1m|%s|%s|function' % (c['name'], mname))
     chk.expect_count('E1m-function', 'std::function members moved by a move constructor', n, 2)
+    # E1m-container: a container member taken from the source by a move constructor is moved (or exchanged / swapped),
+    # not copied - a copy leaves the content in the source, which is to be "empty and usable again"
+    CONT = re.compile(r'std::(vector|map|unordered_map|set|unordered_set|list|deque|multimap)<')
+    k = 0
+    for c in F.classes:
+        if c.get('inst') != 0 or c['name'] not in MATRIX_LEVEL:
+            continue
+        cont = [fl['n'] for fl in c.get('fields', []) if CONT.search((fl.get('ct') or '') + ' ' + (fl.get('t') or ''))]
+        mcs = [f for f in F.functions if f.get('clsname') == c['name'] and f.get('kind') == 'move_ctor' and
+               f.get('inst') in (0, 2) and f.get('body') is not None]
+        for f in mcs[:1]:
+            src = f['params'][0]['n']
+            for mname in cont:
+                ini = _init_of(f, mname)
+                if ini is None or not _mentions_other_field(ini, src, mname):
+                    continue
+                k += 1
+                t = ir.show(ini)
+                emptied = any(w in t for w in ('move', 'exchange', 'swap')) or any(
+                    ir.is_call(y) and ir.call_name(y) in ('clear', 'swap') and
+                    ir.show(ir.call_receiver(y) or {}).replace(' ', '') == '%s.%s' % (src, mname)
+                    for y in ir.walk(f['body']))
+                chk.ob('E1m-container', '%s: the move constructor empties `%s.%s`' % (c['name'], src, mname),
+                       '%s:%d' % (rel(f['file']), f['line']), emptied,
+                       '' if emptied else '`%s(%s)` copies the container: the moved-from object keeps its content (its '
+                       'counts, its dictionary) and answers from it when it is filled again' % (mname, t[:40]),
+                       key='E1m|%s|%s|container' % (c['name'], mname))
+    chk.expect_count('E1m-container', 'container members taken over by a move constructor', k, 10)
     cs = [f for f in F.functions if f.get('clsname') == 'Matrix_row_access' and f.get('kind') == 'copy_ctor' and
           f.get('inst') in (0, 2) and f.get('body') is not None]
     if not cs:
